@@ -73,8 +73,20 @@ class SimDevice(object):
         self.out.append(bytes(raw))
 
     def send(self, cmd, a0, a1, data=b"", **kw):
+        self.n_dev_pkts = getattr(self, "n_dev_pkts", 0) + 1
+        cor = self.cfg.get("corrupt")
+        if cor and cor[0] == self.n_dev_pkts:
+            kw = dict(kw)
+            if cor[1] == "sum":
+                kw["bad_sum"] = True
+            else:
+                kw["bad_cmd"] = True
+            self.corrupted = dict(kind=cor[1], cmd=cmd, nonempty=bool(data), index=self.n_dev_pkts)
         self.log.append(("dev", cmd, a0, a1, bytes(data)))
-        self.emit(pkt(cmd, a0, a1, data, **kw))
+        raw = pkt(cmd, a0, a1, data, **kw)
+        if cor and cor[0] == self.n_dev_pkts:
+            self.corrupted["raw"] = raw
+        self.emit(raw)
 
     def drain(self):
         out, self.out = self.out, []
